@@ -2,10 +2,10 @@ package checks
 
 import (
 	"bytes"
-	"encoding/json"
 	"crypto/sha256"
 	"encoding/base64"
 	"encoding/binary"
+	"encoding/json"
 	"fmt"
 	"sort"
 	"strings"
@@ -438,8 +438,8 @@ func didOps(e *didEnv, v didVariant) []explore.Op {
 			update(d1, d1, "D3", "D3", 2, 0, R1),
 			update(d1, d1, "D5", "D5", 1, 0, R1),
 			update(d1, d1, "D4", "D4", 1, 0, R1),
-			update(d1, d1, "D2", "D2", 3, 0, R1),  // k3 never listed
-			update(d1, d1, "D2", "D1", 1, 0, R1),  // signature over different content
+			update(d1, d1, "D2", "D2", 3, 0, R1), // k3 never listed
+			update(d1, d1, "D2", "D1", 1, 0, R1), // signature over different content
 			update(d2, d2, "D2", "D2", 1, 0, R2),
 			deact(d1, 3, 0, R1),
 			deact(d1, 1, +1, R1),
